@@ -5,10 +5,13 @@ package c04
 import (
 	"fmt"
 	"io"
+	"math"
+	"math/rand/v2"
 	"os"
 	"regexp"
 	"runtime"
 	"strings"
+	"sync"
 	"time"
 
 	"github.com/magisterquis/curlrevshell/internal/iobroker"
@@ -122,12 +125,17 @@ type series struct {
 	leak   bool
 	nDisc  int // disconnected events expected so far
 	nConn  int
-	opFrom int // log position where the current generation's operator lines start
-	nLst   int // event listeners attached (2 prompt ones, optionally a slow one with a small buffer)
+	opFrom int        // log position where the current generation's operator lines start
+	nLst   int        // event listeners attached (2 prompt ones, optionally a slow one with a small buffer)
+	ids    *rand.Rand // decides which generations present a very long ID (nil: none)
 }
 
 func (s *series) viol(key, what string) {
-	wit := map[string]any{"och_cap": s.och, "trace": s.x.Trace, "log_tail": s.w.Log.Tail(50)}
+	tail := s.w.Log.Tail(50)
+	for i := range tail {
+		tail[i] = cut(tail[i], 400) // IDs may be 64 KiB long
+	}
+	wit := map[string]any{"och_cap": s.och, "trace": s.x.Trace, "log_tail": tail}
 	gl := make([]string, len(s.gens))
 	for i, g := range s.gens {
 		gl[i] = g.String()
@@ -176,6 +184,16 @@ func (s *series) runGen(n int, g Gen) {
 		return
 	}
 	key := fmt.Sprintf("id-%d-%d", s.idx, n)
+	if !g.Bidir && s.ids != nil && s.ids.IntN(8) == 0 {
+		// "with any ID": one unidirectional shell in eight presents an ID of 1 KiB - 64 KiB (every
+		// octave alike), as a URL path may carry
+		l := int(1024 * math.Pow(2, 6*s.ids.Float64()))
+		key += "-" + strings.Repeat(string(rune('a'+n%26)), l-len(key)-1)
+		s.r.Count("generations_with_id_of_1_to_64_KiB", 1)
+		if l > 16*1024 {
+			s.r.Count("generations_with_id_over_16_KiB", 1)
+		}
+	}
 	var atts []*bk.Attempt
 	admitted := func(a *bk.Attempt) {
 		atts = append(atts, a)
@@ -526,7 +544,7 @@ func runSeries(r *mon.Run, engine string, idx int, gens []Gen, och int, leak boo
 		r.Inconclusive(err.Error())
 		return
 	}
-	s := &series{r: r, engine: engine, idx: idx, w: w, gens: gens, och: och, leak: leak, nLst: 2}
+	s := &series{r: r, engine: engine, idx: idx, w: w, gens: gens, och: och, leak: leak, nLst: 2, ids: r.Rng(engine+"-ids", idx)}
 	if idx%2 == 1 {
 		// a third listener with room for 1-3 events that looks at them only every few
 		// milliseconds: it must still get every event, in order
@@ -562,6 +580,19 @@ func ChildSerial(args []string) int {
 		for i := part; i < n; i += parts {
 			if r.Want(engine, i) {
 				httpSeries(r, engine, i, gensPer, true)
+			}
+		}
+		if err := r.DumpChild(dump); err != nil {
+			fmt.Fprintln(os.Stderr, err)
+			return 2
+		}
+		return 0
+	}
+	if engine == "longlife" {
+		// one broker's whole life per process, alone in it
+		for i := part; i < llBrokers(r); i += parts {
+			if r.Want(engine, i) {
+				longLife(r, i, true)
 			}
 		}
 		if err := r.DumpChild(dump); err != nil {
@@ -617,13 +648,29 @@ func Run(r *mon.Run) {
 		"http / httpserial engines: hsrv in-process on real TLS with fake shells over raw connections; per generation {/i+/o, /io} x {full, in-only, out-only} x {idle, output flood, input burst} x {client closes / resets input or output, output ends by itself (last chunk, or the last of the declared bytes), both closed} x output transport class {chunked upload, upload with a declared Content-Length of which 1 B..256 KiB is still outstanding when the shell ends, the same with more than 256 KiB (up to 1 TiB) outstanding}; after the gone notice, the re-printed help and the Disconnected records, every request the client has not dropped itself is watched FROM THE CLIENT SIDE: without the client sending another byte the server must answer it completely or let go of its connection within the progress bound (20 s); httpserial runs the same series one at a time in child processes and, after the client has closed its connections, requires that no net/http per-connection goroutine, shell handler or broker goroutine is left. " +
 		"backlog engine: on one broker with two prompt event listeners and a third one that stops reading its channel (capacity EVChanLen, or 1/8/128) from the start or after 1-150 shells, more minimal shells (full /i+/o with either attach order, bidirectional, half attached; ended by output EOF, output error, cancellation of either side) come and go in series than undelivered events fit anywhere (listener channel + broker queue + 1: > 1100 shells for an EVChanLen channel); the shells are driven from their own goroutine; when the driver stops making progress (the broker may wait for the listener) or is through, the listener reads again; then the series must get through, and every listener must have received exactly the events the shells' history dictates (connected iff fully attached, one disconnected per shell), in order, and the operator one ready / one gone notice per shell. " +
 		"lockwait engine (shutdown with the broker busy and streams arriving meanwhile): the operator's terminal stalls behind an operator channel (capacity 0/1/2/5) that is exactly full, so that one stream stays inside the broker on the notice it sends in the middle of its admission, refusal or tear-down {refusal for want of an ID, refusal because of what is attached (wrong ID, direction taken, no ID), 'connected' notice of a first or second direction, 'ready' notice of a unidirectional or bidirectional shell, 'gone' notice of the last direction of a fully or half attached dying shell}; while it is in there Do's context is cancelled, and after that 1-3 new streams {in, out, bidirectional} x {the shell's ID, a fresh ID, none} call Connect (their admit points are awaited; a few arrive before the shutdown instead); then the terminal reads again and everything runs off in the order the broker chooses; attached streams are kept open for a while, then everything is ended. Judged on the order of the event log only: Do's return comes after the tear-down point of every stream that got attached, nothing is attached and no I/O happens after it, every attached stream reaches its tear-down once and logs one Disconnected record, at least one and at most one-per-stream gone notices. That holder, shutdown and newcomers really overlapped is read off the log (the holder's notice is displayed as line capacity+2 or later after the stall began and after the resume note, so it had not been handed over when the terminal resumed). " +
+		"IDs: one unidirectional generation in eight of the cross / series engines presents an ID of 1 KiB - 64 KiB ('the next shell, with any ID, is accepted'). " +
+		"patience engine (the terminal is stalled for a LONG time): in worlds of their own that all run next to the other engines, the operator's terminal stops taking lines behind an operator channel (capacity 0/1/2/8/64/1024) that is full {with exactly as much shell output as fits, with shell output up to the forwarder's hands and the broker's own queue, with lines of the program's other writers}; then a direction ends in one of 20 ways {uni full / in-only / out-only, bidirectional} x {input: ctx cancel, writer error, flush error; output: ctx cancel, EOF, read error; both at once by their own causes; the /io request's context}, the harness sleeps 6 s, 12 s or 31 s (each world about half a minute in all), the terminal reads again, and the generation is judged like a series generation (one closure notice per attached unidirectional direction, then exactly one gone notice, ready notice iff fully attached, one Disconnected record per stream, one disconnected event per listener, every Connect returns without its transport being closed), the next shell (fresh ID) is attached and passes an I/O probe both ways; in two worlds the SECOND direction of a shell attaches while the terminal is stalled and full for 12 s (ready notice exactly once, connected event). " +
+		"longlife engine: ONE broker (thorough: one with 120,000 shells and three more with 12,000) serves 12,000 shells in series in a lean counting world, in a child process of its own: fifteen in sixteen bidirectional (more than 11,000, thorough more than 110,000 ConnectInOut calls on one broker), the others unidirectional {full either order, in-only, out-only} with IDs {8-40 B, 1025-1100 B, 1 KiB - 64 KiB}, ended by {output EOF, read error, last chunk + EOF, ctx cancel of either side or of the /io request, writer error}; EVERY shell: attached (both New connection records; a refusal or a Connect that returns instead is the violation), ready notice + connected event at both listeners iff fully attached, every Connect returns after the ending, and when a marker line comes out of the operator channel: exactly one gone notice, closure notices as in the series engines, nothing after the gone notice, one Disconnected record per stream, each listener exactly one disconnected event per shell so far; a sample (first 20, every 500th, bidirectional ordinals 10^k +-3, last 5) also passes an I/O probe both ways and, transports closed, the goroutine scan; at the end Do returns at shutdown and the event totals are exact. " +
 		"distinct = distinct generation parameter tuples executed"
 	r.Assumptions = []string{"goroutine-leak scans run in child processes that execute one series at a time", "listener events are awaited (bounded) before shutdown; nothing is asserted about events around shutdown",
 		"http engines: a request counts as ended when its response has arrived completely or the connection has been closed/reset by the server; a keep-alive connection left idle after a complete response is not held against the server; the 20 s bound on that is a progress bound of the property itself ('without needing further traffic')",
 		"backlog engine: a broker that makes a shell wait while a listener does not read is not held against it; the no-progress detector (750 ms) only decides when the paused listener resumes, the verdict is on the complete event sequences afterwards and on the series getting through once every listener reads (no progress for 20 s = violation)",
+		"patience engine: the sleeps (6/12/31 s) only create the situation, no verdict depends on them: the notices are looked for when a marker line, sent after every Connect call has returned, comes out of the operator channel (bounded waits of 10 s each after the terminal resumed: a Connect that does not return then is a violation of 'the other direction is ended as well', a marker that does not arrive is inconclusive); that the first notice of the tear-down really waited out the stall is read off the event log (Disconnected record before the resume note, notice displayed after it as line capacity+2 or later since the stall began) and counted, not asserted; ways whose output ends by itself (EOF, error) are only combined with fills that leave the forwarder idle, since a forwarder stuck on the terminal with a chunk in its hands cannot notice the end of its stream before the terminal reads again; 'last chunk + error' is left to the series engines for the same reason",
+		"longlife engine: shells come strictly one after the other (the next one starts after the previous one's marker line has been displayed and its transports are closed); operator lines that are none of the known notices are not judged (kept in the witness); a marker line that does not come out of the operator channel within 10 s is inconclusive",
 		"lockwait engine: which of the waiting parties the broker serves first once the terminal reads again is the broker's choice and is not asserted (a newcomer may be refused or attached); the pauses after the shutdown and after the newcomers' admit points (2-32 ms each) and the time attached streams are kept open (40-160 ms) only make the overlap likely and give a premature return of Do time to show, the verdict never depends on them; a Connect call that neither attaches nor returns within 10 s after the terminal resumed is inconclusive, Do not returning within 10 s after every stream has ended is a violation (progress clause of the shutdown sentence)"}
 	cp := crossProduct()
 	r.Count("cross_product_points", int64(len(cp)))
+	// the engines that need real time (terminal stalls of up to 31 s) or one very long life run next to
+	// everything else
+	var bg sync.WaitGroup
+	if r.WantEngine("patience") {
+		bg.Add(1)
+		go func() { defer bg.Done(); patienceCases(r) }()
+	}
+	if r.WantEngine("longlife") {
+		bg.Add(1)
+		go func() { defer bg.Done(); longLifeCases(r) }()
+	}
 	parts := runtime.NumCPU()
 	for _, engine := range []string{"cross", "series", "httpserial"} {
 		if !r.WantEngine(engine) {
@@ -658,6 +705,8 @@ func Run(r *mon.Run) {
 		n, gensPer := httpSerialCounts(r)
 		r.Floor("httpserial_leak_scans", int64(n*gensPer*8/10))
 	}
+	bg.Wait()
+	r.Logf("patience / longlife done")
 	r.Floor("generations_judged", 200)
 	r.Floor("leak_scans", 200)
 	r.Floor("shutdown_cases", 20)
@@ -667,6 +716,8 @@ func Run(r *mon.Run) {
 		r.Floor("readers_back_in_read_with_an_exactly_full_queue", 10)
 		r.Floor("intruders_in_teardown_window", 20)
 		r.Floor("intruders_with_the_dying_shells_id", 8)
+		r.Floor("generations_with_id_of_1_to_64_KiB", int64(r.N(40, 2000)))
+		r.Floor("generations_with_id_over_16_KiB", int64(r.N(10, 500)))
 	}
 }
 
